@@ -256,6 +256,14 @@ def wholefile_gate(repo: Repo, rep):
         if good:
             gate_ok = True
             rep.ok("R-WHOLEFILE-GATE", f, c, "whole-file formatting only if enforced or the original file was a fixed point of the formatter")
+            # ... and then always: on the gate's true edge every normal path to the end passes the formatting
+            from ..cfg import must_reach as _mr
+
+            for g in gates:
+                starts = [b for b, l in g.succ if l == "T"]
+                r_ = reach(cfg, starts, blocked_nodes=[n], skip_labels=("exc",))
+                if cfg.ret in r_ and n not in starts:
+                    rep.violation("R-WHOLEFILE-GATE", f, g.ast, "a file that was formatter-clean (or has a format-command) can be written without the final whole-file pass: a further condition sits between the gate and format_code(), so e.g. a statement that fits on one line again after a trim stays wrapped and `black --check` fails on the result", construct="format-skipped")
         else:
             rep.violation("R-WHOLEFILE-GATE", f, c, "the whole file is re-formatted although it was not formatter-clean before and no format-command is set: text outside the snapshot() arguments is rewritten", construct="ungated-format")
     if not gate_ok and not any(o.verdict == "violation" and o.rule == "R-WHOLEFILE-GATE" for o in rep.obl):
@@ -576,7 +584,17 @@ def element_parens(repo: Repo, rep):
         if g.name not in used:
             continue
         n += 1
-        if central or any(isinstance(c, ast.Call) and norm(c.func).split(".")[-1] in names for c in body_nodes(g.node)):
+        exp_calls = [c for c in body_nodes(g.node) if isinstance(c, ast.Call) and norm(c.func).split(".")[-1] in names]
+        mixed = None
+        for c in exp_calls:
+            rng = next((a for a in c.args if isinstance(a, ast.Tuple) and len(a.elts) == 2), None)
+            if rng is not None:
+                roots = [norm(x.value) if isinstance(x, ast.Subscript) else norm(x) for x in rng.elts]
+                if roots[0] != roots[1]:
+                    mixed = c
+        if mixed is not None:
+            rep.violation("R-ELEMENT-PARENS", g, mixed, f"{g.qualname} extends one range that starts in one node and ends in another (`{short(mixed, 60)}`): the expansion only happens when BOTH ends are next to parentheses, so an entry whose key alone or value alone is parenthesised keeps a dangling parenthesis when its neighbour is deleted / something is inserted next to it", construct=f"{g.name}:mixed-range")
+        elif central or exp_calls:
             rep.ok("R-ELEMENT-PARENS", g, g.node, f"{g.name}: range extended over enclosing parentheses")
         else:
             rep.violation("R-ELEMENT-PARENS", g, g.node, f"{g.qualname} returns the bare token range of the element: parentheses around it (`(1)`, a wrapped string) stay behind when the element is deleted or something is inserted next to it - unbalanced code, SyntaxError at session end", construct=f"{g.name}:no-parens")
